@@ -27,10 +27,10 @@ type histReplay struct {
 }
 
 type appCase struct {
-	ID       string
-	Seed     uint64
-	Prof     sim.Profile
-	Scenario func(w *sim.World) // nil: random walk
+	ID           string
+	Seed         uint64
+	Prof         sim.Profile
+	Scenario     func(w *sim.World) // nil: random walk
 	CrossProcess bool
 }
 
@@ -121,6 +121,16 @@ func runCase(c *Ctx, prop string, ac appCase, nontrivialKeys []string) {
 	}
 	if osGetenv("VCHECK_TRACE") != "" {
 		w.Env.Monitors = append([]sim.Monitor{mon.Trace{}}, w.Env.Monitors...)
+	}
+	if c.Journal != "" {
+		if jf, err := os.OpenFile(c.Journal, os.O_CREATE|os.O_TRUNC|os.O_WRONLY, 0644); err == nil {
+			fmt.Fprintf(jf, "{\"case\":%q,\"profile\":%q}\n", ac.ID, ac.Prof.Name)
+			w.Env.LogFile = jf
+			defer func() {
+				fmt.Fprintln(jf, `{"case_end":true}`)
+				jf.Close()
+			}()
+		}
 	}
 	ic := w.Start(dbm.NewMemDB())
 	c.Res.Cases++
@@ -406,7 +416,7 @@ func profileFor0(prop string, r *sim.Rand, i int, quick bool) sim.Profile {
 		p.W["stake"], p.W["unstake"] = 25, 10
 	case "C08":
 		p = baseProfile(r, true)
-		p.Blocks = 4 * int(p.Pos.SignedBlocksWindow) + 60
+		p.Blocks = 4*int(p.Pos.SignedBlocksWindow) + 60
 		if !quick {
 			p.Blocks = 10*int(p.Pos.SignedBlocksWindow) + 100
 		}
